@@ -203,7 +203,29 @@ def h_count_step(name, nr, nc):
         accessor_agreement('result', out, True, **sig)
 
 
-HARNESSES = {'step': h_step, 'two': h_two, 'count_step': h_count_step}
+def h_three(name1, name2, name3, nr, nc):
+    """3-operation sequences over a small alphabet from canonical states (histories of depth 3)"""
+    md = 'both'
+    t, a = make_table(nr, nc, md=md, zeros=0, unsorted=False, layouts=('csr',), type_='OTU table')
+    cur = t
+    for k, name in enumerate((name1, name2)):
+        out, _, e = _run_op(name, OPS[name], cur, observe(cur), md)
+        results = out if isinstance(out, list) else ([cur] if out is None else [out])
+        cur = results[0]
+        if not coherent(f'step{k + 1}', cur, op=name) or cur.is_empty():
+            return
+    out3, _, e3 = _run_op(name3, OPS[name3], cur, observe(cur), md)
+    sig = dict(ops=f"{name1}>{name2}>{name3}")
+    if coherent('step3:receiver', cur, **sig):
+        accessor_agreement('step3:receiver', cur, False, **sig)
+    for r in (out3 if isinstance(out3, list) else ([] if out3 is None else [out3])):
+        if r is not cur and coherent('step3:result', r, **sig):
+            accessor_agreement('step3:result', r, False, **sig)
+
+
+HARNESSES = {'step': h_step, 'two': h_two, 'three': h_three, 'count_step': h_count_step}
+THREE_ALPHABET = ['filter-ids:sample:keep', 'sort_order:observation', 'transpose', 'update_ids:sample:strict', 'transform-zeroing:observation',
+                  'del_metadata:whole', 'remove_empty:whole', 'collapse:sample']
 
 UNARY = [n for n, s in OPS.items() if s['arity'] == 1]
 TWO_ALPHABET = ['filter-ids:sample:keep', 'filter-ids:observation:invert', 'filter-pred:sample', 'sort_order:sample',
@@ -230,6 +252,10 @@ def jobs(tier):
         for n1 in TWO_ALPHABET:
             for n2 in TWO_ALPHABET:
                 out.append(('two', (n1, n2, 2, 3)))
+        for n1 in THREE_ALPHABET:
+            for n2 in THREE_ALPHABET:
+                for n3 in THREE_ALPHABET:
+                    out.append(('three', (n1, n2, n3, 2, 2)))
     else:
         for n1 in TWO_ALPHABET[::3]:
             for n2 in TWO_ALPHABET[1::3]:
@@ -263,7 +289,7 @@ META = {
                                                                              '_subsample_with_replacement'],
                 'biom/err.py': ['errcheck', 'test']},
     'bounds': {'quick': {'start states': '2x2, <=1 explicit zero', 'sequences': 'depth 1 for all ops; depth 2 over a 6x6 sub-alphabet'},
-               'thorough': {'start states': '2x2 (<=2 explicit zeros), 2x3, 3x2', 'sequences': 'depth 1 for all ops; all depth-2 sequences over a 19-op alphabet on 2x3'}},
+               'thorough': {'start states': '2x2 (<=2 explicit zeros), 2x3, 3x2', 'sequences': 'depth 1 for all ops; all depth-2 sequences over a 19-op alphabet on 2x3; all depth-3 sequences over an 8-op alphabet on 2x2'}},
     'outside': ['sequences longer than 2 beyond what the inductive step implies', 'argument values outside the menu', 'larger tables',
                 'random exploration beyond the bound (not part of this technique)'],
     'assumptions': ['Inv is the representation invariant assumed for pre-states and asserted for post-states',
